@@ -170,7 +170,17 @@ func c20Health(r *core.Run, agentBin string, md *fakes.Metadata, c c20HealthCase
 		if !tth.IsZero() && time.Since(tth) > 10*time.Second {
 			r.Violate("C20:no-exit-when-unhealthy", fmt.Sprintf("history %s (t=%d, %s): %d consecutive health checks failed %v ago but the agent is still running", c.Script, c.Threshold, c.Kind, c.Threshold, time.Since(tth).Round(time.Millisecond)), c, nil)
 		} else if tth.IsZero() {
-			r.Inconclusive(fmt.Sprintf("health history %s did not reach %d consecutive failures in time (%d replies)", c.Script, c.Threshold, len(evs)))
+			// the checks run every second; when the last one was asked for more than 8 s ago (and one had passed before), the agent
+			// has stopped checking a backend that would now fail every check - it can never notice and exit
+			var last time.Time
+			for _, e := range evs {
+				last = e.Sent
+			}
+			if !firstPass.IsZero() && !last.IsZero() && time.Since(last) > 8*time.Second {
+				r.Violate("C20:health-checks-stopped", fmt.Sprintf("history %s (t=%d, %s): after %d health checks (the last one %v ago, interval 1 s) the agent makes no further checks; the backend now fails every check, so the agent can never terminate itself", c.Script, c.Threshold, c.Kind, len(evs), time.Since(last).Round(time.Millisecond)), c, nil)
+			} else {
+				r.Inconclusive(fmt.Sprintf("health history %s did not reach %d consecutive failures in time (%d replies)", c.Script, c.Threshold, len(evs)))
+			}
 		}
 	}
 	for _, ex := range core.CrashMarkers(agent.LogPath) {
@@ -188,6 +198,7 @@ type c20ShutCase struct {
 	FinishS float64
 	GraceMs int    `json:"grace_ms,omitempty"`              // > 0: a period that is not a whole number of seconds (overrides GraceS for the flag and the oracle)
 	Second  string `json:"second_signal,omitempty"`         // a second signal (INT/TERM) sent 300 ms after the first, during the period
+	Shim    bool   `json:"shim_enabled,omitempty"` // the agent runs with --shim-path/--shim-websockets
 	Health  bool   `json:"health_checks_enabled,omitempty"` // the agent also runs health checks (1 s interval, threshold 2) against a backend that always passes them
 }
 
@@ -293,6 +304,9 @@ func c20Shutdown(r *core.Run, agentBin string, md *fakes.Metadata, c c20ShutCase
 	args := []string{}
 	if c.GraceS > 0 {
 		args = append(args, "--graceful-shutdown-timeout="+c.grace().String())
+	}
+	if c.Shim {
+		args = append(args, "--shim-path=shim", "--shim-websockets=true")
 	}
 	if c.Health {
 		args = append(args, "--health-check-path=/healthz", "--health-check-interval-seconds=1", "--health-check-unhealthy-threshold=2")
@@ -464,6 +478,9 @@ func c20Shutdown(r *core.Run, agentBin string, md *fakes.Metadata, c c20ShutCase
 	if c.Health {
 		cls += "|health-checks-on"
 	}
+	if c.Shim {
+		cls += "|shim-on"
+	}
 	if !confirm {
 		r.Case(cls)
 	}
@@ -619,6 +636,9 @@ func C20(r *core.Run) {
 	}
 	// health checks keep passing while the grace period (longer than interval x threshold) runs: the in-flight request is still answered
 	scs = append(scs, c20ShutCase{Name: fmt.Sprintf("s%d", len(scs)), Signal: "INT", GraceS: 7, Phase: "at-backend", Finish: "inside", FinishS: 4.5, Health: true})
+	// the websocket shim enabled: prompt exit without a period, and the usual behaviour with one
+	scs = append(scs, c20ShutCase{Name: fmt.Sprintf("s%d", len(scs)), Signal: "TERM", GraceS: 0, Phase: "idle", Finish: "inside", FinishS: 1, Shim: true},
+		c20ShutCase{Name: fmt.Sprintf("s%d", len(scs)+1), Signal: "INT", GraceS: 2, Phase: "at-backend", Finish: "inside", FinishS: 1, Shim: true})
 	// a backend that stays busy far beyond the period (longer than the progress bound): the process still exits when the period ends
 	scs = append(scs, c20ShutCase{Name: fmt.Sprintf("s%d", len(scs)), Signal: "TERM", GraceS: 2, Phase: "at-backend", Finish: "outside", FinishS: 16})
 	// a period that is not a whole number of seconds, with the backend finishing in its last second; and a second signal during the period
